@@ -176,12 +176,21 @@ def run_cell(cell, seed):
                    res(INCONCLUSIVE, case, 'M-DISP.linear', '%s: %s' % (st, detail)))
     # absent entries, with the module in its default padding mode and (one cell in three) with the
     # padding-mode option set to 'zero': "absent = zeros" is a statement about the inverse as configured
-    variants = [(inv, None)]
+    variants = [(inv, None, None)]
     if full and rnd.random() < 0.34:
         with util.default_dtype(torch.float64):
-            variants.append((pw.DTCWTInverse(biort=cell['biort'], qshift=cell['qshift'], mode='zero'), 'zero'))
-    for inv_, mode_ in (variants if full else []):
+            variants.append((pw.DTCWTInverse(biort=cell['biort'], qshift=cell['qshift'], mode='zero'), 'zero', None))
+    if full and rnd.random() < 0.34:
+        # ... and with the orientation / complex axes somewhere else (the zeros that stand in for a missing
+        # entry have to be sized from bandpasses laid out that way)
+        from . import c12
+        lay = rnd.choice([(1, -1), (0, 5), (2, 0), (5, 1), (3, 2), (-6, -1), (1, 0)])
+        with util.default_dtype(torch.float64):
+            variants.append((pw.DTCWTInverse(biort=cell['biort'], qshift=cell['qshift'], o_dim=lay[0], ri_dim=lay[1]), None, lay))
+    for inv_, mode_, lay_ in (variants if full else []):
         yl, yh, tol = full['yl'], full['yh'], full['tol']
+        if lay_:
+            yh = [c12.expected_layout(h, lay_[0], lay_[1]).contiguous() for h in yh]
         masks = [m for m in itertools.product([False, True], repeat=J + 1) if any(m) and not all(m)]
         if len(masks) > 5:
             masks = rnd.sample(masks, 5)
@@ -197,6 +206,8 @@ def run_cell(cell, seed):
                 case = {'cell': cell, 'input': 'randn', 'absent_mask': list(mask), 'encoding': enc}
                 if mode_:
                     case['mode'] = mode_
+                if lay_:
+                    case['layout'] = list(lay_)
                 kf = kf_for(enc, mask, det, J)
                 al = absent(enc, yl) if mask[0] else yl
                 ah = [absent(enc, h) if mask[j + 1] else h for j, h in enumerate(yh)]
